@@ -43,7 +43,7 @@ ASSUMPTIONS = ["codec 'none' only (zstandard is not installed)",
 SHRINK_FIELDS = ["edits"]
 
 # includes every character str.splitlines() treats as a line boundary (the snapshot file format is line based)
-KEYS = ["a", "b", "a.b", ".", "", "a.", ".b", "x.y.z", "ü", "n→1", "_adds", "weight", "a\\.b", " ", "l\u2028s", "p\u2029s", "n\x85l", "cr\rlf", "vt\x0bff\x0c", "fs\x1cgs\x1d"]
+KEYS = ["a", "b", "a.b", ".", "", "a.", ".b", "x.y.z", "ü", "n→1", "_adds", "weight", "a\\.b", "d\\", "\\", "\\\\", "C:\\data\\", "\\.", ".\\", " ", "l\u2028s", "p\u2029s", "n\x85l", "cr\rlf", "vt\x0bff\x0c", "fs\x1cgs\x1d"]
 
 
 def _val(r, depth=0) -> Any:
